@@ -46,9 +46,10 @@ ChoiceSpace(c) ==
   ELSE {<<>>}
 ChoiceCap(c) == IF ~Nondet(c) THEN 0 ELSE IF CaseMM(c) = 2 THEN 4 ELSE IF CaseMM(c) = 3 THEN 2 ELSE 0
 
-ParSpace(c) == [cancelAt : {0}, choice : ChoiceSpace(c), pol : Policies, dev : {{}}]
+ParSpace(c) == [cancelAt : {0}, choice : ChoiceSpace(c), pol : Policies, dev : {{}}, exm : {FALSE}]
 DevSets == (SUBSET DevNames) \ {{}}
-DevParSpace(c) == [cancelAt : {0}, choice : ChoiceSpace(c), pol : Policies, dev : DevSets]
+DevParSpace(c) == [cancelAt : {0}, choice : ChoiceSpace(c), pol : Policies, dev : DevSets, exm : {FALSE}]
+ExmParSpace(c) == [cancelAt : {0}, choice : ChoiceSpace(c), pol : Policies, dev : {{"unary-nonnum-exists"}}, exm : {TRUE}]
 
 ClsOf(e) == e.cls
 
@@ -75,6 +76,7 @@ C01Run(c, o, r0) ==
                /\ (q.err # "none" \/ BagMatch(q.items, o.query.items)))
        THEN "bag"
   ELSE IF \E par \in DevParSpace(c) : QueryMatches(c, par, o) THEN "dev"
+  ELSE IF \E par \in DevParSpace(c) : Eval(c, par).err = "opaque" THEN "skip"
   ELSE "bad"
 
 (* the deviations that explain a run the intended rules do not *)
@@ -137,8 +139,11 @@ C06Run(c, o, vOK, tag, r0) ==
                    LET m == MatchOf(c, Eval(c, par)) IN m.err = o.match.err.cls /\ m.val = o.match.val
       eomOK == IF c.path.pred THEN SameOutcome(o.eom, o.match) \/ nd
                ELSE SameOutcome(o.eom, o.exists) \/ nd
+      existsDev == ~existsOK /\ c.path.lax /\ o.exists.err.cls = "none" /\ o.exists.val
+                   /\ \E par \in ExmParSpace(c) : Eval(c, par).items # <<>>
   IN (IF firstOK THEN {} ELSE {"C06.first" \o tag})
-     \cup (IF existsOK THEN {} ELSE {"C06.exists" \o tag})
+     \cup (IF existsOK THEN {} ELSE IF existsDev THEN {"known.unary-nonnum-exists.C06.exists" \o tag}
+                                ELSE {"C06.exists" \o tag})
      \cup (IF matchOK THEN {} ELSE {"C06.match" \o tag})
      \cup (IF eomOK THEN {} ELSE {"C06.eom" \o tag})
 
